@@ -89,11 +89,15 @@ class BaseSampler(BaseSeedable, ABC):
         Returns:
             the sampled parameters
         """
-        samples = self.sample_batch(
-            self.batch_size,
-            search_space,
-            existing_points,
-            existing_losses,
+        # a private copy of the draw: the redraws are written into it, and a generator
+        # may have returned a view of the history it was given
+        samples = np.array(
+            self.sample_batch(
+                self.batch_size,
+                search_space,
+                existing_points,
+                existing_losses,
+            ),
         )
 
         for n in range(self.max_deduplication_passes):
